@@ -1048,4 +1048,64 @@ theorem negRelImpl_nil (g : Graph) (fw : List Term) : negRelImpl g fw [] = negRe
   apply propext
   simp [negRelImpl, negRel]
 
+/-- a predicate that is not a member of the set: one more than the sum of the members -/
+def freshPred : List Nat → Nat
+  | [] => 0
+  | x :: xs => x + freshPred xs + 1
+
+theorem lt_freshPred : ∀ (l : List Nat) (x : Nat), x ∈ l → x < freshPred l
+  | y :: ys, x, h => by
+    rcases List.mem_cons.mp h with e | e
+    · subst e; show x < x + freshPred ys + 1; omega
+    · have := lt_freshPred ys x e; show x < y + freshPred ys + 1; omega
+
+theorem freshPred_not_mem (l : List Nat) : freshPred l ∉ l :=
+  fun h => Nat.lt_irrefl _ (lt_freshPred l _ h)
+
+/-- a negated property set with an inverse member is answered wrongly on the one-triple graph `0 q 1`, `q` fresh:
+    the reversed triple `(1, 0)` is demanded and `NegatedPath.eval` only ever answers forward triples -/
+theorem negRelImpl_ne_of_inverse (fw : List Term) (b : Term) (bs : List Term) :
+    negRel [(0, freshPred (fw ++ b :: bs), 1)] fw (b :: bs) 1 0 ∧
+    ¬ negRelImpl [(0, freshPred (fw ++ b :: bs), 1)] fw (b :: bs) 1 0 := by
+  refine ⟨Or.inr ⟨by simp, freshPred (fw ++ b :: bs), by simp, ?_⟩, ?_⟩
+  · intro h
+    exact freshPred_not_mem (fw ++ b :: bs) (List.mem_append_right _ h)
+  · rintro ⟨p, hp, _⟩
+    simp at hp
+
+/-! ### `MulPath.eval(…, first=…)` -/
+
+theorem mulEvalF_true (g : Graph) (ev : Ev) (m : Mod) : mulEvalF g ev m true = mulEval g ev m := by
+  funext s o
+  simp only [mulEvalF, mulEval, Bool.and_true]
+
+/-- with `first=False` and an end given, exactly the pairs reachable in **one or more** steps (`?`: exactly one) are
+    yielded; with both ends free nothing changes -/
+theorem mulF_false_correct {g : Graph} {ev : Ev} {R : Rel} (hev : Correct (nodes g) ev R) (hR : Iso (nodes g) R)
+    (m : Mod) (s o : Option Term) (x y : Term) :
+    (x, y) ∈ mulEvalF g ev m false s o ↔
+      (if s = none ∧ o = none then closure m R x y else (if m.more = true then TransGen R x y else R x y)) ∧
+        Restr (nodes g) s o x y := by
+  simp only [mulEvalF, Bool.and_false, Bool.false_eq_true, if_false, List.nil_append, mem_dedupInto, List.not_mem_nil,
+    not_false_eq_true, and_true]
+  cases s with
+  | some a =>
+    rw [mulRun_some hev hR m a o x y]
+    simp only [reduceCtorEq, false_and, if_false, Restr, Option.some.injEq, forall_eq', false_imp_iff, and_true]
+    constructor
+    · rintro ⟨rfl, h, t⟩; exact ⟨t, rfl, h⟩
+    · rintro ⟨t, rfl, h⟩; exact ⟨rfl, h, t⟩
+  | none =>
+    cases o with
+    | some b =>
+      rw [mulRun_none_some hev hR m b x y]
+      simp only [reduceCtorEq, and_false, if_false, Restr, Option.some.injEq, forall_eq', false_imp_iff, true_and,
+        implies_true, and_true]
+      constructor
+      · rintro ⟨rfl, t⟩; exact ⟨t, rfl⟩
+      · rintro ⟨t, rfl⟩; exact ⟨rfl, t⟩
+    | none =>
+      rw [mulRun_none_none hev hR m x y]
+      simp [Restr]
+
 end RV.C11
